@@ -126,6 +126,10 @@ def strict_parse(b, weighable):
         sym = m.group(0).decode()
         if sym not in formulas.Z_OF:
             return ("reject", "unknown symbol " + sym)
+    # a lowercase letter that does not belong to a symbol (e.g. ")a0") makes everything after it unspecified: the rules on subscripts
+    # below only speak about numbers that follow a symbol or a closing parenthesis
+    if re.search(rb"[A-Z][a-z][a-z]", b) or re.search(rb"(^|[^A-Za-z])[a-z]", b):
+        return ("unspec", "stray lowercase")
     for m in re.finditer(rb"[0-9.]+", b):
         t = m.group(0)
         if m.start() == 0 or b[m.start() - 1:m.start()] == b"(":
@@ -316,19 +320,28 @@ def work(item):
             hyp.run_property(st, "unweighable", dict(tree=tree_st, sym=hs.sampled_from(unweighable), pos=hs.integers(0, 50)), prop_unw, max(50, n // 10), sv + 1)
         return st
     if part[0] == "mutants":
-        def prop(st, tree, kind, pos, byte):
+        def edit(s, kind, pos, byte):
+            p = pos % (len(s) + 1)
+            if kind == 0:
+                return s[:p] + bytes([byte]) + s[p:]
+            if kind == 1 and len(s) > 1:
+                p = pos % len(s)
+                return s[:p] + s[p + 1:]
+            if kind == 3 and len(s) > 1:       # transposition of two neighbours, e.g. "()" -> ")("
+                p = pos % (len(s) - 1)
+                return s[:p] + s[p + 1:p + 2] + s[p:p + 1] + s[p + 2:]
+            p = pos % len(s)
+            return s[:p] + bytes([byte]) + s[p + 1:]
+
+        def prop(st, tree, kind, pos, byte, kind2, pos2, byte2):
             s = formulas.render(tree).encode()
             if len(s) > 120:
                 return None
-            p = pos % (len(s) + 1)
-            if kind == 0:
-                m = s[:p] + bytes([byte]) + s[p:]
-            elif kind == 1 and len(s) > 1:
-                p = pos % len(s)
-                m = s[:p] + s[p + 1:]
-            else:
-                p = pos % len(s)
-                m = s[:p] + bytes([byte]) + s[p + 1:]
+            m = edit(s, kind, pos, byte)
+            if kind2 >= 0 and len(m) > 0:      # a second, independent edit (strings at distance 2 from a valid formula)
+                m = edit(m, kind2, pos2, byte2)
+            if len(m) == 0:
+                return None
             pv = strict_parse(s, env.aw)[0]
             mv = strict_parse(m, env.aw)[0]
             if pv != mv:
@@ -337,8 +350,9 @@ def work(item):
             if r is None and mv != "accept":
                 st.sample("mutant:" + mv, dict(parent=s.decode(), mutant=m.decode("latin-1")), cap=2)
             return r
-        interesting = list(b"().0123456789") + list(range(1, 256))
-        k = hyp.run_property(st, "mutants", dict(tree=tree_st, kind=hs.integers(0, 2), pos=hs.integers(0, 200), byte=hs.sampled_from(interesting)),
+        interesting = list(b"().0123456789") * 6 + list(b"()") * 12 + list(range(1, 256))
+        k = hyp.run_property(st, "mutants", dict(tree=tree_st, kind=hs.integers(0, 3), pos=hs.integers(0, 200), byte=hs.sampled_from(interesting),
+                                                 kind2=hs.sampled_from([-1, -1, 0, 1, 2, 3]), pos2=hs.integers(0, 200), byte2=hs.sampled_from(interesting)),
                              prop, n, sv)
         st.cls("examples_mutants", k)
         return st
